@@ -1,6 +1,6 @@
 (** C09 - the free-page allocator obeys its specification (both backends).
     Property theorems only; each is closed by [exact] of a lemma of FreelistProofs.v. *)
-From Bbolt Require Import Base Freelist FreelistProofs FreelistAllocProofs FreelistHmProofs FreelistReleaseProofs.
+From Bbolt Require Import Base Freelist FreelistProofs FreelistAllocProofs FreelistHmProofs FreelistReleaseProofs FreelistRollbackProofs.
 From Coq Require Import Sorting.Sorted.
 From Coq Require Import Sorting.Permutation.
 
@@ -144,3 +144,35 @@ Theorem C09_pinned_release_unsafe : ~ (forall rs p p' freed,
   forall r, In r rs -> needs r tid a = false).
 Proof. exact release_pending_gen_unguarded_unsafe. Qed.
 Print Assumptions C09_pinned_release_unsafe.
+
+(** * Rollback: the frees of a transaction followed by its Rollback restore exactly the prior free list, pending map and
+      reader list (for every list of frees; Rollback's panic condition and its effect on the allocation records are
+      characterised exactly in FreelistRollbackProofs.v) *)
+Theorem C09_rollback_restores : forall txid frees s s1 s2,
+  keys_unique (pending s) -> alookup txid (pending s) = None ->
+  fold_left (fun r f => match r with Ok s0 => free_page txid (fst f) (snd f) s0 | e => e end) frees (Ok s) = Ok s1 ->
+  rollback txid s1 = Ok s2 ->
+  free s2 = free s /\ pending s2 = pending s /\ readers s2 = readers s.
+Proof. exact frees_then_rollback. Qed.
+Print Assumptions C09_rollback_restores.
+
+(** * the remaining decision procedures evaluated on the implementation's before/after states are sound *)
+Theorem C09_free_decision_sound : forall txid id ov sb sa, free_ok txid id ov sb sa = true ->
+  free sa = free sb /\ Permutation (pending_ids (pending sa)) (pending_ids (pending sb) ++ run id (ov + 1)) /\
+  forall x, In x (run id (ov + 1)) -> exists a, In (txid, x, a) (pend_pairs (pending sa)).
+Proof. exact free_ok_sound. Qed.
+Print Assumptions C09_free_decision_sound.
+
+Theorem C09_rollback_decision_sound : forall txid sb sa, rollback_ok txid sb sa = true ->
+  free sa = free sb /\ (forall e, In e (pending sa) -> fst e <> txid) /\
+  Permutation (pending_ids (pending sa)) (map (fun t => snd (fst t)) (filter (fun t => negb (fst (fst t) =? txid)) (pend_pairs (pending sb)))).
+Proof. exact rollback_ok_sound. Qed.
+Print Assumptions C09_rollback_decision_sound.
+
+Theorem C09_release_decision_sound : forall sb sa, release_ok sb sa = true ->
+  Permutation (cache sa) (cache sb) /\ (forall x, In x (free sb) -> In x (free sa)) /\
+  (forall tid p a, In (tid, p, a) (pend_pairs (pending sb)) -> In p (free sa) -> ~ In p (free sb) ->
+     forall r, In r (readers sb) -> visible_to a tid r = false) /\
+  (readers sb = [] -> pending sa = []).
+Proof. exact release_ok_sound. Qed.
+Print Assumptions C09_release_decision_sound.
